@@ -12,7 +12,7 @@ class Gen:
         self.conf = conf or arr.Conf(nd=self.rng.choice([2, 2, 3]), np=self.rng.choice([1, 2, 2, 3]), copies=2)
         self.a = arr.Array(self.conf, seed=seed if data_seed is None else data_seed)
         self.a.io_vary = True
-        self.names = names or ["A", "B", "E", "F", "K"]
+        self.names = names or (["A", "B", "sub/E", "sub/F", "sub/deep/K"] if profile == "filters" else ["A", "B", "E", "F", "K"])
         self.maxblk = maxblk
         self.nextv = 1
         self.tick = 10
